@@ -191,6 +191,35 @@ func poolSeq(r *Rand, mode, lo, hi int) []PStmt {
 	return out
 }
 
+// sharedOperandSeq: 2-5 statements whose memory operand (or immediate) is the same text.
+func sharedOperandSeq(r *Rand, mode int) []string {
+	mems := []string{"[BX]", "[SI]", "[DI]", "[BX+SI]", "[BP+DI]", "[BX+4]", "[SI+0x100]", "[BP+2]", "[0x1234]"}
+	if mode == 32 || r.Chance(1, 4) {
+		mems = []string{"[EAX]", "[ESI]", "[ESP]", "[EBX+ECX]", "[EBP+8]", "[ESI+EDI*4]", "[ESP+4]", "[EDX]", "[ECX+0x100]", "[0x12345]"}
+	}
+	m := Pick(r, mems)
+	w := Pick(r, []int{8, 16, 32})
+	kw := map[int]string{8: "BYTE", 16: "WORD", 32: "DWORD"}[w]
+	regs := map[int][]string{8: {"AL", "CL", "DL", "BL", "AH", "CH", "DH", "BH"}, 16: {"AX", "CX", "DX", "BX", "SP", "BP", "SI", "DI"}, 32: {"EAX", "ECX", "EDX", "EBX", "ESP", "EBP", "ESI", "EDI"}}[w]
+	imm := Pick(r, []string{"1", "0x7f", "0x10"})
+	forms := []func() string{
+		func() string { return fmt.Sprintf("\tMOV %s,%s", Pick(r, regs), m) },
+		func() string { return fmt.Sprintf("\tMOV %s,%s", m, Pick(r, regs)) },
+		func() string { return fmt.Sprintf("\t%s %s,%s", Pick(r, []string{"ADD", "SUB", "AND", "OR", "XOR", "CMP"}), Pick(r, regs), m) },
+		func() string { return fmt.Sprintf("\t%s %s,%s", Pick(r, []string{"ADD", "SUB", "AND", "OR", "XOR", "CMP"}), m, Pick(r, regs)) },
+		func() string { return fmt.Sprintf("\t%s %s %s,%s", Pick(r, []string{"ADD", "SUB", "AND", "OR", "XOR", "CMP"}), kw, m, imm) },
+		func() string { return fmt.Sprintf("\tMOV %s %s,%s", kw, m, imm) },
+		func() string { return fmt.Sprintf("\tNOT %s %s", kw, m) },
+		func() string { return fmt.Sprintf("\t%s %s %s,%s", Pick(r, []string{"SHL", "SHR", "SAR"}), kw, m, Pick(r, []string{"1", "3"})) },
+	}
+	n := r.Range(2, 5)
+	var out []string
+	for i := 0; i < n; i++ {
+		out = append(out, Pick(r, forms)())
+	}
+	return out
+}
+
 func init() {
 	props["C14"] = propCheck{run: func(env *Env, rep *Report) {
 		env.InitBaseline()
@@ -228,6 +257,21 @@ func init() {
 			c := &ConcatCase{Mode: mode, Refused: true}
 			c.Parts = [][]PStmt{a, {PStmt{K: "raw", Text: refusedStmts[i%len(refusedStmts)]}}, b}
 			c.Cell_ = fmt.Sprintf("refused-between m%d %s", mode, strings.TrimSpace(refusedStmts[i%len(refusedStmts)]))
+			cases = append(cases, c)
+		}
+		// statements that share an operand text (the same memory operand, with and without displacement, as the r/m operand of
+		// different registers and opcode extensions; the same immediate; the same register): each one alone against all in a row
+		nshare := 400
+		if env.Tier == "thorough" {
+			nshare = 6000
+		}
+		for i := 0; i < nshare; i++ {
+			mode := 16 + 16*(i%2)
+			c := &ConcatCase{Mode: mode}
+			for _, t := range sharedOperandSeq(r, mode) {
+				c.Parts = append(c.Parts, []PStmt{{K: "raw", Text: t}})
+			}
+			c.Cell_ = fmt.Sprintf("shared-operand m%d n=%d", mode, len(c.Parts))
 			cases = append(cases, c)
 		}
 		// the same relation when what precedes a sequence is LARGE: the sequence then stands at every alignment around the
